@@ -9,21 +9,21 @@
 (*  MSpec   mutants of valid frames (byte replaced / inserted / deleted,       *)
 (*          length fields replaced by negative, huge, malformed texts, deep    *)
 (*          nesting): one Probe script each.                                   *)
-(*  BigSpec nesting far beyond any limit (Big scripts, bytes not logged).       *)
+(*          plus nesting far beyond any limit (Big scripts, bytes not logged).  *)
 (*  CSpec   C22: commands / queries with CR, LF, CRLF-bearing text in every     *)
-(*          syntactic position (Cmd scripts, several commands on one store)     *)
-(*  WSpec   C22: Sweep scripts - the text inserted at EVERY byte offset of an   *)
+(*          syntactic position (Cmd scripts, several commands on one store) and *)
+(*          Sweep scripts - the text inserted at EVERY byte offset of an        *)
 (*          argument (expanded by the harness, re-enumerated by the trace spec) *)
 EXTENDS Resp, TLC, Json
 
 CONSTANTS Alpha,     \* the alphabet, a sequence of bytes
           N,         \* strings up to this length are model-checked
           P,         \* prefix length of the Exhaust scripts
-          NMax       \* Exhaust scripts cover lengths up to NMax
+          NMin, NMax \* Exhaust scripts cover the lengths NMin..NMax
 
 \* * $ + - : _ 0 1 2 9 a CR LF   (cfg: Alpha <- Alpha13)
 Alpha13 == <<42, 36, 43, 45, 58, 95, 48, 49, 50, 57, 97, 13, 10>>
-Alpha12 == <<42, 36, 43, 45, 58, 95, 48, 49, 57, 97, 13, 10>>
+Alpha8 == <<42, 36, 45, 49, 50, 57, 13, 10>>              \* * $ - 1 2 9 CR LF
 
 VARIABLE cur
 A == Len(Alpha)
@@ -45,11 +45,14 @@ ClassLemma(b) ==
           /\ b[1] \in TypeBytes => Encode(r.v) = Pre(b, r.j - 1)   \* typed frames are canonical
     /\ r.k = "need" => \A n \in 0..Len(b) - 1 : Top(Pre(b, n)) = Need
     /\ r.k = "open" => \A x \in ABytes : Top(Append(b, x)).k = "open"   \* garbage stays garbage
-Lemma == ClassLemma(cur)
+BIG == 999     \* cur = <<BIG, d>> stands for a Big script (not a byte string)
+IsBig == cur # <<>> /\ cur[1] = BIG
+Lemma == IsBig \/ ClassLemma(cur)
 
 EmitExhaust ==
-    /\ Len(cur) < P => PrintT(<<"SCRIPT", ToJson(<<[op |-> "Exhaust", prefix |-> cur, n |-> Len(cur), alpha |-> Alpha]>>)>>)
-    /\ Len(cur) = P => \A n \in P..NMax :
+    /\ (Len(cur) < P /\ Len(cur) >= NMin) =>
+           PrintT(<<"SCRIPT", ToJson(<<[op |-> "Exhaust", prefix |-> cur, n |-> Len(cur), alpha |-> Alpha]>>)>>)
+    /\ Len(cur) = P => \A n \in P..NMax : n >= NMin =>
            PrintT(<<"SCRIPT", ToJson(<<[op |-> "Exhaust", prefix |-> cur, n |-> n, alpha |-> Alpha]>>)>>)
 
 \* ---------------------------------------------------------------- mutants
@@ -98,18 +101,18 @@ LenMutants(b) ==
 \* nesting: d array headers around a leaf (complete) or around nothing (incomplete)
 RECURSIVE Nest(_, _)
 Nest(d, leaf) == IF d = 0 THEN leaf ELSE <<STAR, 49>> \o CRLF \o Nest(d - 1, leaf)
-NestMutants == {Nest(d, leaf) : d \in {1, 2, 7, 8, 9, 10, 16, 31, 32, 33, 40}, leaf \in {<<>>, <<COLON, 49>> \o CRLF, <<STAR>>, <<97>> \o CRLF}}
+NestMutants(u) == {Nest(d, leaf) : d \in {1, 2, 7, 8, 9, 10, 16, 31, 32, 33, 40}, leaf \in {<<>>, <<COLON, 49>> \o CRLF, <<STAR>>, <<97>> \o CRLF}}
 
-Mutants == UNION {ByteMutants(b) \cup LenMutants(b) : b \in SeedBytes} \cup NestMutants
-
-MInit == RInit /\ cur \in Mutants
-MSpec == MInit /\ [][FALSE]_pvars
-EmitProbe == PrintT(<<"SCRIPT", ToJson(<<[op |-> "Probe", bytes |-> cur]>>)>>)
-
+\* (the dummy parameter keeps TLC from evaluating the set at start-up of the runs that do not use it)
+Mutants(u) == UNION {ByteMutants(b) \cup LenMutants(b) : b \in SeedBytes} \cup NestMutants(u)
 \* decoders that refuse big or deep frames do so without being fed: Big scripts (no bytes in the trace)
-BigInit == cur \in {<<d>> : d \in {41, 64, 127, 128, 129, 200, 1000, 20000, 200000, 600000}}
-BigSpec == RInit /\ BigInit /\ [][FALSE]_pvars
-EmitBig == \A leaf \in {0, 1} : PrintT(<<"SCRIPT", ToJson(<<[op |-> "Big", kind |-> "nest", d |-> cur[1], leaf |-> leaf]>>)>>)
+Bigs == {<<BIG, d>> : d \in {41, 64, 127, 128, 129, 200, 1000, 20000, 200000, 600000}}
+
+MInit == RInit /\ cur \in Mutants(0) \cup Bigs
+MSpec == MInit /\ [][FALSE]_pvars
+EmitProbe ==
+    IF IsBig THEN \A leaf \in {0, 1} : PrintT(<<"SCRIPT", ToJson(<<[op |-> "Big", kind |-> "nest", d |-> cur[2], leaf |-> leaf]>>)>>)
+    ELSE PrintT(<<"SCRIPT", ToJson(<<[op |-> "Probe", bytes |-> cur]>>)>>)
 
 \* ---------------------------------------------------------------- C22: commands
 \* Command arguments are TLA+ strings here (TLC cannot look inside them and does not have to: the
@@ -139,7 +142,7 @@ Queries(e) == {
 }
 C(args) == [op |-> "Cmd", args |-> args]
 GQ(q) == C(<<"GRAPH.QUERY", "default", q>>)
-CmdScripts ==
+CmdScripts(u) ==
     UNION {
         {<<C(<<e>>)>>, <<C(<<e, "x">>)>>, <<C(<<"PING", e>>)>>, <<C(<<"ECHO", e>>)>>, <<C(<<"ECHO">>), C(<<"INFO", e>>)>>,
          <<C(<<"GRAPH.QUERY", e, "RETURN 1">>)>>, <<C(<<"GRAPH.RO_QUERY", e, "RETURN 1">>)>>, <<C(<<"GRAPH.QUERY", "default" \o e, "RETURN 1">>)>>,
@@ -161,12 +164,11 @@ CmdScripts ==
 
 SweepTexts == {"MATCH (n:L) WHERE n.p = 'v' RETURN n.p AS `c`", "CREATE (n:L {p: 'v'})-[:R]->(m:`M`) RETURN n",
                "RETURN nosuch('a') + $p", "CALL db.labels() YIELD label RETURN label"}
-SweepScripts ==
+SweepScripts(u) ==
     {<<[op |-> "Sweep", args |-> <<"GRAPH.QUERY", "default", q>>, arg |-> 3, evil |-> e]>> : q \in SweepTexts, e \in {"\r\n", "\n", "\r"}}
     \cup {<<[op |-> "Sweep", args |-> <<"GRAPH.QUERY", "default", "RETURN 1">>, arg |-> k, evil |-> e]>> : k \in 1..2, e \in {"\r\n", "\n"}}
     \cup {<<[op |-> "Sweep", args |-> <<"ECHO", "hello">>, arg |-> k, evil |-> "\r\n"]>> : k \in 1..2}
 
-CSpec == RInit /\ cur \in CmdScripts /\ [][FALSE]_pvars
-WSpec == RInit /\ cur \in SweepScripts /\ [][FALSE]_pvars
+CSpec == RInit /\ cur \in CmdScripts(0) \cup SweepScripts(0) /\ [][FALSE]_pvars
 EmitCur == PrintT(<<"SCRIPT", ToJson(cur)>>)
 =============================================================================
